@@ -312,6 +312,10 @@ def hist_cases(draw):
                                           st.lists(h256s(), max_size=2)), min_size=2, max_size=2)),
         "ikey": draw(xonly_keys()),
         "ops": draw(st.lists(op_strategy(), min_size=2, max_size=tier_len)),
+        # a fixed opening that random op lists rarely produce: script-path witness, query, the leaf replaced
+        # IN PLACE, the same query again (then the generated ops follow)
+        "opening": draw(st.sampled_from([None, None, None, "script_path_requery", "annex_verify_requery"])),
+        "opening_args": draw(st.tuples(st.integers(0, 5), st.integers(0, 0xFFFFFFFF), st.sampled_from(HT_TAP))),
     }
 
 
@@ -342,7 +346,17 @@ def check_hist(case, ctx):
     edited_after_query = False
     requery = False
     n_q = 0
-    for op in case["ops"]:
+    ops = [tuple(o) for o in case["ops"]]
+    if case.get("opening"):
+        oi, ov, oht = case["opening_args"]
+        ctx.label("opening:" + case["opening"])
+        if case["opening"] == "script_path_requery":
+            ops = [("e", "leaf_set", oi, ov), ("q", "bip341_script", oi, oht), ("e", "leaf_inplace", oi, ov + 1),
+                   ("q", "bip341_script", oi, oht)] + ops
+        else:
+            ops = [("e", "p2tr_annex_spend", oi, ov), ("q", "bip341", oi, oht), ("v", "", oi, 0),
+                   ("q", "bip341", oi, oht)] + ops
+    for op in ops:
         if op[0] == "q":
             _, fam, i, ht = op
             idx = i % len(txd["ins"])
@@ -660,6 +674,7 @@ SUBS = [
     Sub("history_independence", check_hist, strategy=lambda tier: hist_cases(), stateful=True,
         budget={"quick": 8000, "thorough": 300000},
         required=["edit:" + e for e in EDITS] + ["query_edit_query", "script_path_query", "inplace_leaf_replaced",
-                                                    "verify_between_queries", "verify_p2tr_input_with_annex"],
+                                                    "verify_between_queries", "verify_p2tr_input_with_annex",
+                                                    "opening:script_path_requery", "opening:annex_verify_requery"],
         nontrivial_rule="history in which an algorithm family is queried, the tx edited, and the family queried again"),
 ]
